@@ -49,6 +49,20 @@ func roundtrip(sec, nsec, rsec, rnsec int64) {
 		lib.V(lib.I(back.Unix()), lib.I(int64(back.Nanosecond()))))
 }
 
+// edge: the edges of the window judged at nanosecond granularity (the property's literal window)
+func edge(sec, nsec, rsec, rnsec int64) {
+	ref := time.Unix(rsec, rnsec)
+	back := ntp.TimeFromTime64(ntp.Time64FromTime(time.Unix(sec, nsec)), ref)
+	tags := "edge"
+	if sec-rsec == 1<<31 && nsec < rnsec {
+		tags = "edge,nt,upper-band"
+	} else if sec-rsec == -(1<<31) {
+		tags = "edge,nt"
+	}
+	w.Case("ntp.edge", tags, lib.V(lib.I(sec), lib.I(nsec), lib.I(rsec), lib.I(rnsec), lib.I(sec-rsec)),
+		lib.V(lib.I(back.Unix()), lib.I(int64(back.Nanosecond()))))
+}
+
 func order(s1, n1, s2, n2, rsec, rnsec int64) {
 	ref := time.Unix(rsec, rnsec)
 	b1 := ntp.TimeFromTime64(ntp.Time64FromTime(time.Unix(s1, n1)), ref)
@@ -152,6 +166,8 @@ func main() {
 				order(lib.ParseI(f[0]), lib.ParseI(f[1]), lib.ParseI(f[2]), lib.ParseI(f[3]), lib.ParseI(f[4]), lib.ParseI(f[5]))
 			case "ntp.cmp":
 				cmp(uint32(lib.ParseU(f[0])), uint32(lib.ParseU(f[1])), uint32(lib.ParseU(f[2])), uint32(lib.ParseU(f[3])))
+			case "ntp.edge":
+				edge(lib.ParseI(f[0]), lib.ParseI(f[1]), lib.ParseI(f[2]), lib.ParseI(f[3]))
 			}
 		}
 		return
@@ -165,6 +181,22 @@ func main() {
 	roundtrip(2085978494, 0, 2085978497, 0)
 	roundtrip(2085978497, 0, 2085978494, 0)
 	roundtrip(6380945790, 999999999, 6380945793, 1)
+	// both window edges at nanosecond granularity
+	edge(1700000000+1<<31, 0, 1700000000, 999999999)
+	for i := 0; i < n/40; i++ {
+		rsec, rnsec := genRef(r)
+		nsec := genNsec(r)
+		switch r.Intn(4) {
+		case 0:
+			edge(rsec+1<<31, nsec, rsec, rnsec)
+		case 1:
+			edge(rsec-1<<31, nsec, rsec, rnsec)
+		case 2:
+			edge(rsec+1<<31-1, nsec, rsec, rnsec)
+		default:
+			edge(rsec-1<<31+1, nsec, rsec, rnsec)
+		}
+	}
 	for i := 0; i < n; i++ {
 		rsec, rnsec := genRef(r)
 		d := genDelta(r)
